@@ -8,6 +8,10 @@
      node.root                -> ln_root             node.depth            -> ln_depth (absolute!)
      node.node_name           -> ln_name             node.path_name        -> ln_path_name
      node.get_attr(k)         -> ln_get_attr         identity of the object-> ln_tag
+   Empty child slots of a BinaryNode (`None` entries of node.children) are not represented: the kids
+   of a tree are the non-empty slots in order (left before right).  Every loop over node.children in
+   the modelled code skips the empty slots (`if tree` in preorder_iter, `if _node` in find_children,
+   `if child` in the '*' branch of find_relative_paths), so ln_children IS what those loops visit.
    `sep` is the separator of the tree (Node.sep reads it from the root: node.py:84-92). *)
 From BT Require Import Base.Prelude Base.Str Base.Rose.
 
@@ -47,11 +51,17 @@ Fixpoint lookup_attr (k : str) (a : attrs) : val :=
   end.
 Definition ln_get_attr (k : str) (n : lnode) : val := lookup_attr k (tattrs (ln_tree n)).
 
-(* Python `==` on the attribute values the harness uses (None, int, str, bool): True == 1 *)
+(* Python `==` on the attribute values the harness uses (None, int, str, bool, float):
+   True == 1 == 1.0; a float is the exact rational num/den with den > 0 *)
+Definition bool_z (x : bool) : Z := if x then 1%Z else 0%Z.
 Definition py_eqb (a b : val) : bool :=
   match a, b with
-  | VBool x, VInt z => Z.eqb z (if x then 1 else 0)
-  | VInt z, VBool x => Z.eqb z (if x then 1 else 0)
+  | VBool x, VInt z => Z.eqb z (bool_z x)
+  | VInt z, VBool x => Z.eqb z (bool_z x)
+  | VFloat n d, VInt z => Z.eqb n (z * d)
+  | VInt z, VFloat n d => Z.eqb n (z * d)
+  | VFloat n d, VBool x => Z.eqb n (bool_z x * d)
+  | VBool x, VFloat n d => Z.eqb n (bool_z x * d)
   | _, _ => val_eqb a b
   end.
 
@@ -166,8 +176,11 @@ Definition s_dot : str := [46%N].
 Definition s_dotdot : str := [46%N; 46%N].
 Definition s_star : str := [42%N].
 
-(* search.py:253-283  the nested function `resolve`; resolved_nodes.append happens in depth-first
-   order, an exception aborts everything *)
+(* search.py:253-285  the nested function `resolve`; resolved_nodes.append happens in depth-first
+   order, an exception aborts everything.  '*' branch (273-276, repaired by 09acfdb):
+     for child in node.children:
+         if child: resolve(child, path_idx + 1)
+   = one recursive call per non-empty slot, i.e. per element of ln_children *)
 Fixpoint resolve (wild : bool) (comps : list str) (n : lnode) : res (list lnode) :=
   match comps with
   | [] => Ret [n]
